@@ -6,7 +6,10 @@ use crate::{IncomingRequest, Result};
 use sip_types::msg::MessageLine;
 use sip_types::{CodeKind, Method};
 use std::io;
+#[cfg(not(feature = "ezk-verif"))]
 use std::time::Instant;
+#[cfg(feature = "ezk-verif")]
+use tokio::time::Instant;
 use tokio::time::timeout_at;
 
 /// Server INVITE transaction. Used to respond to the incoming request.
